@@ -46,6 +46,7 @@ Judge(e) == CASE e.ev = "auth_edge" -> JudgeEdge(e)
               [] e.ev = "auth_migrate" -> [ S_migration_needs_admin_own_code_newer_version |-> Must(e.ok = (e.by_admin /\ e.c = e.code /\ e.newer)),
                                             S_refused_migration_changes_nothing |-> G(~e.ok, e.digest_same) ]
               [] e.ev = "reset" -> NoGuards
+              [] e.ev = "driver_abort" -> [ M_driver_completed |-> Must(FALSE) ]
 Init == l = 1 /\ cnt = NoGuards
 Step == /\ l <= Len(Rec)
         /\ LET e == Rec[l]  gs == Judge(e) IN Report(e.i, e.sc, gs) /\ cnt' = Count(cnt, gs)
